@@ -2,6 +2,7 @@ package rules
 
 import (
 	"go/token"
+	"strings"
 
 	"golang.org/x/tools/go/ssa"
 
@@ -43,35 +44,28 @@ func c13Force(c *core.Ctx, r *core.Reporter) {
 		return
 	}
 	resolve := sites[0].(ssa.Instruction)
-	// a forcing call: static callee from which dethunkMapDepthFirst is statically reachable, inside the
-	// same loop, after the resolve call, guarded by the serial flag, before the store into the result map
+	// forcing instructions: static calls from which dethunkMapDepthFirst is statically reachable (the helper, or the map /
+	// list walkers called in place when the helper is inlined) and the call of a thunk asserted out of the field's result
 	dm := c.Func("", "dethunkMapDepthFirst")
-	var force *ssa.Call
+	var forces []*ssa.Call
 	core.Instrs(eps, func(in ssa.Instruction) {
 		call, ok := in.(*ssa.Call)
-		if !ok || call.Call.StaticCallee() == nil || !c.IsLib(call.Call.StaticCallee()) {
+		if !ok {
 			return
 		}
-		if reachesStatic(c, call.Call.StaticCallee(), dm, 4) {
-			force = call
+		if cal := call.Call.StaticCallee(); cal != nil {
+			if c.IsLib(cal) && cal != rpf && reachesStatic(c, cal, dm, 4) {
+				forces = append(forces, call)
+			}
+			return
+		}
+		if strings.HasPrefix(core.UserCallback(call), "thunk") {
+			forces = append(forces, call)
 		}
 	})
-	if force == nil {
+	if len(forces) == 0 {
 		r.Bad("executePlannedSelection/serial-forcing", resolve.Pos(), "no depth-first forcing call in the field loop: with resolvers that return thunks a later top-level mutation field's resolver runs before an earlier field's deferred work")
 		return
-	}
-	inLoop := false
-	for _, l := range core.Loops(eps) {
-		if l[force.Block()] && l[resolve.Block()] {
-			inLoop = true
-		}
-	}
-	guarded := false
-	if len(force.Block().Preds) == 1 {
-		p := force.Block().Preds[0]
-		if iff, ok := p.Instrs[len(p.Instrs)-1].(*ssa.If); ok && iff.Cond == serial && p.Succs[0] == force.Block() {
-			guarded = true
-		}
 	}
 	var store *ssa.MapUpdate
 	core.Instrs(eps, func(in ssa.Instruction) {
@@ -79,18 +73,70 @@ func c13Force(c *core.Ctx, r *core.Reporter) {
 			store = mu
 		}
 	})
-	okOrder := store != nil && reaches(resolve, force) && reaches(force, store) && core.InstrDominates(resolve, store)
-	// the forced value is what gets stored
-	okVal := false
-	if store != nil {
-		for _, cl := range core.Classes(store.Value) {
-			if cl == "call:"+core.N(force.Call.StaticCallee()) {
-				okVal = true
+	inLoop, guarded, okOrder, argOK := true, true, store != nil && core.InstrDominates(resolve, store), false
+	for _, force := range forces {
+		in := false
+		for _, l := range core.Loops(eps) {
+			if l[force.Block()] && l[resolve.Block()] {
+				in = true
+			}
+		}
+		inLoop = inLoop && in
+		// guarded by the serial flag and by nothing else: on the dominator chain from the forcing instruction up to the test
+		// of the flag only tests of the dynamic type of the value being forced may appear (is it a thunk / a map / a list)
+		g := false
+		for b := force.Block(); b != nil; b = b.Idom() {
+			idom := b.Idom()
+			if idom == nil {
+				break
+			}
+			iff, ok := idom.Instrs[len(idom.Instrs)-1].(*ssa.If)
+			if !ok {
+				continue
+			}
+			if iff.Cond == ssa.Value(serial) {
+				g = idom.Succs[0].Dominates(force.Block())
+				break
+			}
+			if !idom.Succs[0].Dominates(force.Block()) && !idom.Succs[1].Dominates(force.Block()) {
+				continue // the branch joins again before the forcing instruction: not a condition of it
+			}
+			isTypeTest := false
+			if ex, ok := iff.Cond.(*ssa.Extract); ok {
+				if _, ok := ex.Tuple.(*ssa.TypeAssert); ok {
+					isTypeTest = true
+				}
+			}
+			if !isTypeTest {
+				break // some other condition stands between the flag and the forcing
+			}
+		}
+		guarded = guarded && g
+		okOrder = okOrder && store != nil && reaches(resolve, force) && reaches(force, store)
+		// applied to this field's own result
+		operands := force.Call.Args
+		if force.Call.StaticCallee() == nil {
+			operands = []ssa.Value{force.Call.Value}
+		}
+		for _, a := range operands {
+			if core.HasClass(a, "call:resolvePlannedField") {
+				argOK = true
 			}
 		}
 	}
-	argOK := len(force.Call.Args) == 1 && core.HasClass(force.Call.Args[0], "call:resolvePlannedField")
-	r.Check(inLoop && guarded && okOrder && okVal && argOK, "executePlannedSelection/serial-forcing", force.Pos(),
+	// what gets stored is the field's result, forced: the resolver call's value or what the forcing returned
+	okVal := false
+	if store != nil {
+		okVal, _ = core.OnlyClasses(store.Value, "call:resolvePlannedField", "call:dethunk*", "dyn:*")
+		forcedClass := false
+		for _, cl := range core.Classes(store.Value) {
+			if strings.HasPrefix(cl, "call:dethunk") || strings.HasPrefix(cl, "dyn:") {
+				forcedClass = true
+			}
+		}
+		okVal = okVal && forcedClass
+	}
+	r.Check(inLoop && guarded && okOrder && okVal && argOK, "executePlannedSelection/serial-forcing", forces[0].Pos(),
 		"under the serial flag the field's own result is forced depth-first inside the loop, after its resolution and before it is stored",
 		"the serial-path forcing is not (a) inside the field loop, (b) guarded by the serial flag, (c) applied to this field's resolved value between its resolution and its store: deferred work of an earlier mutation field can run after a later field's resolver")
 
